@@ -1915,6 +1915,7 @@ sc_io_read_at_all (sc_MPI_File mpifile, sc_MPI_Offset offset, void *ptr,
       /** fopen failed for the last process and active is the errno.
        * We propagate the errno to all subsequent processes.
        */
+      errval = active;
       if (rank < mpisize - 1) {
         mpiret = sc_MPI_Send (&active, 1, sc_MPI_INT,
                               rank + 1, 1, mpifile->mpicomm);
@@ -1944,10 +1945,9 @@ sc_io_read_at_all (sc_MPI_File mpifile, sc_MPI_Offset offset, void *ptr,
       /* open the file on rank 0 to be ready for the next file_read call */
       errno = 0;
       mpifile->file = fopen (mpifile->filename, "rb");
-      errval = errno;
-      if (errval != 0) {
+      if (errno != 0) {
         /* it occurred an error */
-        SC_ASSERT (errval > 0);
+        SC_ASSERT (errno > 0);
         SC_ABORT ("sc_io_read_at_all: rank 0 open failed");
       }
     }
@@ -2204,6 +2204,7 @@ sc_io_write_at_all (sc_MPI_File mpifile, sc_MPI_Offset offset,
       /** fopen failed for the last process and active is the errno.
        * We propagate the errno to all subsequent processes.
        */
+      errval = active;
       if (rank < mpisize - 1) {
         mpiret = sc_MPI_Send (&active, 1, sc_MPI_INT,
                               rank + 1, 1, mpifile->mpicomm);
@@ -2233,10 +2234,9 @@ sc_io_write_at_all (sc_MPI_File mpifile, sc_MPI_Offset offset,
       /* open the file on rank 0 to be ready for the next file_write call */
       errno = 0;
       mpifile->file = fopen (mpifile->filename, "ab");
-      errval = errno;
-      if (errval != 0) {
+      if (errno != 0) {
         /* it occurred an error */
-        SC_ASSERT (errval > 0);
+        SC_ASSERT (errno > 0);
         SC_ABORT ("sc_mpi_write_at_all: rank 0 open failed");
       }
     }
